@@ -78,6 +78,11 @@ Example C12_walk_example :
       mkO (OGrow 8) RetUnit (136, [(0,10);(16,26);(76,136)]) 80 ]) = None.
 Proof. vm_compute. reflexivity. Qed.
 
+(* ... and complete: every transition first fit allows is accepted by the judgement (no alarm on a
+   conforming allocator, whatever its internal representation of the free list) *)
+Theorem C12_checker_complete : forall pre live lost o ob post live' lost',
+  ff_step (abs pre live lost) o ob (abs post live' lost') -> ff_stepb pre live o ob post = true.
+Proof. exact ff_stepb_complete. Qed.
 Print Assumptions C12_invariant_all_histories.
 Print Assumptions C12_first_fit.
 Print Assumptions C12_free_exact.
@@ -88,3 +93,4 @@ Print Assumptions C12_alloc_always_enabled.
 Print Assumptions C12_accounting.
 Print Assumptions C12_checker_sound.
 Print Assumptions C12_walk_sound.
+Print Assumptions C12_checker_complete.
